@@ -2,13 +2,14 @@ package sim
 
 import (
 	"bufio"
-	"encoding/base64"
 	"bytes"
+	"encoding/base64"
 	"encoding/binary"
 	"encoding/json"
 	"fmt"
 	"io"
 	"math/big"
+	"os"
 	"regexp"
 	"sort"
 	"strings"
@@ -150,7 +151,7 @@ func (r *Recorder) Tx(c *Chain, signer string, msgs []map[string]interface{}, re
 	m["logs"] = logs
 	if res.Code != 0 {
 		l := res.Log
-		if len(l) > 160 {
+		if len(l) > 160 && os.Getenv("VERIF_TRACE") == "" {
 			l = l[:160]
 		}
 		m["log"] = l
